@@ -30,13 +30,16 @@ def gen_conc_cases(rng, n, S, big=False):
             # nobody reads while the senders run: keep what is in flight well below the socket buffers
             plans = [[min(x, cls["m"]) for x in p[:3]] for p in plans[:3]]
         cases.append({"id": i + 1, "plans": plans, "mode": modes[i % 5], "procs": 1 if i % 7 == 3 else 0, "late": late,
-                      "delay_us": rng.choice([0, 0, 100, 400]) if i % 3 else 0, "S": S})
+                      "delay_us": rng.choice([0, 0, 100, 400]) if i % 3 else 0, "S": S,
+                      # every sixth run: the kernel transiently refuses some transmission attempts of every send (ENOBUFS)
+                      "faults": rng.choice(["01", "001", "0101", "011", "1"]) if i % 6 == 2 else ""})
     return cases
 
 
 def run_conc(binp, S, cases, Sreal=None):
-    lines = ["id=%d msgs=%s mode=%s procs=%d delay_us=%d late=%d" % (
-        c["id"], ";".join(",".join(str(x) for x in p) for p in c["plans"]), c["mode"], c["procs"], c["delay_us"], c.get("late", 0)) for c in cases]
+    lines = ["id=%d msgs=%s mode=%s procs=%d delay_us=%d late=%d%s" % (
+        c["id"], ";".join(",".join(str(x) for x in p) for p in c["plans"]), c["mode"], c["procs"], c["delay_us"], c.get("late", 0),
+        (" faults=" + c["faults"]) if c.get("faults") else "") for c in cases]
     env = {"VSHIM_SNDBUF": S} if S else {}
     recs, trace, rc, err = C.run_harness(binp, "conc", lines, env_extra=env, timeout=900)
     by = {r["id"]: r for r in recs if r.get("kind") == "conc"}
@@ -96,8 +99,9 @@ def conc_trace_items(it):
             so = C.ops_between(trace, "send %d.%d.%d" % (c["id"], s, q), "endsend %d.%d.%d" % (c["id"], s, q))
             if so is None:
                 continue
-            items.append({"case": {"id": 0, "len": max(L, 32), "S": c["S"], "level": "platform", "faults": ""},
-                          "rec": {"send": "Ok"}, "send_obs": F.project_send(so), "recv_obs": None})
+            ok = next((o for (s2, q2, t0, t1, o) in rec["stamps"] if (s2, q2) == (s, q)), True)
+            items.append({"case": {"id": 0, "len": max(L, 32), "S": c["S"], "level": "platform", "faults": c.get("faults", "")},
+                          "rec": {"send": "Ok" if ok else "Err(105)"}, "send_obs": F.project_send(so), "recv_obs": None})
     return items
 
 
@@ -177,7 +181,8 @@ def check_C02(chk):
     cov["correspondence_mismatches"] = len(bad)
     cov["rule"] = ("conc driver: 1..8 senders (threads; every 5th run forked processes) x 1..6 messages per sender drawn from "
                    "{64 B, 900 B, cap, cap+1, 3 packets, 6 packets}, S in {4096, 8192, 16384, default}, receiver eager / delayed / polling try_recv / polling try_recv_timeout / "
-                   "through a receiver set, every 4th run started only after all senders have finished and dropped their handles, shim sleeping 0..400 us after each first fragment; in-process build too; "
+                   "through a receiver set, every 4th run started only after all senders have finished and dropped their handles, shim sleeping 0..400 us after each first fragment, every 6th run with "
+                   "ENOBUFS injected into transmission attempts of every send; in-process build too; "
                    "every send()'s system-call sequence is compared with Frag.send (follow-ups on the dedicated socket only); "
                    "non-trivial = at least 2 senders and at least one multi-packet message")
     cov["input_distribution"] = {"modes": {m: sum(1 for it in items if it["case"]["mode"] == m) for m in ("eager", "delayed", "poll", "set", "timeout")},
